@@ -222,7 +222,7 @@ def main(run):
     def indcls(weights, array):
         """array: False/'list' -> list individuals, True/'ndarray' -> numpy.ndarray, 'array' -> array.array('d')"""
         kind = {False: "list", True: "ndarray"}.get(array, array)
-        key = (tuple(weights), kind)
+        key = (tuple((type(w).__name__, w) for w in weights), kind)      # -1 and -1.0 are different weights here
         if key not in fits:
             fname = "C13Fit%d" % len(fits)
             iname = "C13Ind%d" % len(fits)
@@ -427,12 +427,18 @@ def main(run):
     # ---------------------------------------------------------------- one update, fully checked
     STATE_KEYS = ("centroid", "sigma", "pc", "ps", "C", "B", "diagD", "BD")
 
-    def do_update(s, pop, coq, meta):
-        """pop: evaluated individuals. Runs s.update(pop) and checks everything."""
+    def do_update(s, pop, coq, meta, wv_true=None):
+        """pop: evaluated individuals. Runs s.update(pop) and checks everything.
+        wv_true: the exact weighted values (value * weight computed by the harness from what it assigned) when they are
+        integers beyond 2**53, which a float cannot tell apart; the ranking is judged on them."""
         P, S = read_params(s), read_state(s)
-        wv = [tuple(float(v) for v in ind.fitness.wvalues) for ind in pop]
+        wv_raw = list(wv_true) if wv_true is not None else [tuple(ind.fitness.wvalues) for ind in pop]
+        wv = [tuple(float(v) for v in t) for t in wv_raw]
         xs = [[float(v) for v in ind] for ind in pop]
         case = dict(meta, kind="update", params=jsonable(P), pre=jsonable(S), wvalues=wv, xs=xs)
+        if wv_true is not None:
+            case["exact_wvalues"] = [[str(v) for v in t] for t in wv_raw]
+        wv = wv_raw                      # exact values decide order and distinctness
         distinct = len(set(wv)) == len(wv)
         if not distinct:
             stats["ties"] += 1
@@ -763,6 +769,28 @@ def main(run):
                 if not do_update(s, pop, coq, dict(meta, action="double-second")) or not state_usable(s):
                     return
 
+    def bigint_run():
+        """class 3: integer objective values beyond 2**53 under integer weights: pairwise distinct exact weighted values that
+        collapse to one double; the mu best and the order independence are judged on the exact values (oracle only)"""
+        n = rng.randint(2, 6)
+        s, kw = new_strategy(n, False)
+        if s is None or not state_usable(s):
+            return
+        wt = rng.choice([1, -1])
+        icls = indcls((wt,), rng.choice(["list", "ndarray"]))
+        for g in range(run.scale(2, 4)):
+            if not state_usable(s):
+                return
+            meta = {"objective": "exact integers beyond 2**53", "fitness_weights": [wt], "gen": g, "dim": n, "mode": "bigint"}
+            pop = do_generate(s, icls, False, meta) or own_samples(s, icls)
+            base_v = rng.choice([2 ** 60, 2 ** 53, -(2 ** 61)])
+            ks = rng.sample(range(0, 4 * len(pop)), len(pop))
+            for ind, k in zip(pop, ks):
+                ind.fitness.values = (base_v + k,)
+            stats["bigint_updates"] = stats.get("bigint_updates", 0) + 1
+            if not do_update(s, pop, False, meta, wv_true=[((base_v + k) * wt,) for k in ks]):
+                return
+
     def interleaved_run(coq):
         """class 1: two strategies (different dimension / rates) used alternately: no state may leak through
         class attributes or module globals"""
@@ -874,6 +902,8 @@ def main(run):
         guard(reconfig_run, rng.randint(9, 20), False, rng.randint(4, 10))
     for _ in range(run.scale(4, 40)):
         guard(interleaved_run, True)
+    for _ in range(run.scale(8, 80)):
+        guard(bigint_run)
     for _ in range(run.scale(6, 60)):
         guard(aliasing_run, rng.randint(2, 8), True)
     for scale, offset in [(1e-9, 0.0), (1e-6, 0.0), (1e3, 0.0), (1e6, 0.0), (1.0, 1e3), (1.0, -1e3), (1.0, 0.0), (1.0, 0.0)]:
